@@ -653,11 +653,60 @@ def prepare_real(ctx, case):
                 fmt_segs(algo.update_path, algo.orthogonalization_path))
     except Exception as e:                  # noqa: BLE001
         extra.append(f"TDVP constructor raised {type(e).__name__}: {str(e)[:80]}")
+    events = observe_events(ttns, ttno)
     tree = model_tree_tokens(root, nodes)
     qs = " ".join("q " + " ".join(q) for q in queries)
-    return {"kind": "real", "root": root, "nodes": nodes, "adj": adj, "queries": queries, "answers": answers,
+    return {"kind": "real", "events": events, "root": root, "nodes": nodes, "adj": adj, "queries": queries, "answers": answers,
             "extra": extra, "tdvp": tdvp, "n": n,
-            "lines": [f"C17 flat tree {tree} {qs}", f"C17 struct tree {tree} {qs}"]}
+            "lines": [f"C17 flat tree {tree} {qs}", f"C17 struct tree {tree} {qs}",
+                      f"C17 struct tree {tree} q events first q events second q events twosite"]}
+
+
+EVENT_KINDS = (("tdvp1", "first"), ("tdvp2", "second"), ("tdvp2site", "twosite"))
+
+
+def observe_events(ttns, ttno):
+    """One time step of the three TDVP variants with the methods that make up the events of
+    `Ptn.C05.Disc` wrapped: `_update_site` -> site, `_update_link` -> link, `_update_two_site_nodes` ->
+    two, every hop of `_move_orth_and_update_cache_for_path` -> move, `_reset_for_next_time_step` ->
+    hops along the way back to the start and `init`."""
+    from harness import algos
+    out = {}
+    for kind, which in EVENT_KINDS:
+        log: List[str] = []
+        try:
+            algo = algos.make_algo(kind, ttns, ttno, 0.01, 0.01, [])
+
+            def wrap(name, fn, algo=algo):
+                orig = getattr(algo, name)
+
+                def w(*a, **k):
+                    fn(*a, **k)
+                    return orig(*a, **k)
+                setattr(algo, name, w)
+
+            wrap("_update_site", lambda v, *a, **k: log.append(f"site {lab(v)}"))
+            if hasattr(algo, "_update_link"):
+                wrap("_update_link", lambda a, b, *x, **k: log.append(f"link {lab(a)}>{lab(b)}"))
+            if hasattr(algo, "_update_two_site_nodes"):
+                wrap("_update_two_site_nodes", lambda a, b, *x, **k: log.append(f"two {lab(a)}>{lab(b)}"))
+
+            def mv(path):
+                for a, b in zip(path, path[1:]):
+                    log.append(f"move {lab(a)}>{lab(b)}")
+            wrap("_move_orth_and_update_cache_for_path", mv)
+            if hasattr(algo, "_reset_for_next_time_step"):
+                def rs(algo=algo):
+                    pth = algo.state.path_from_to(algo.state.orthogonality_center_id, algo.update_path[0])
+                    for a, b in zip(pth, pth[1:]):
+                        log.append(f"hop {lab(a)}>{lab(b)}")
+                    log.append(f"init {lab(algo.update_path[0])}")
+                wrap("_reset_for_next_time_step", rs)
+            algo.run_one_time_step()
+            out[which] = " ".join(["ok"] + log)
+        except Exception as e:              # noqa: BLE001
+            out[which] = f"err ({type(e).__name__}: {str(e)[:60]})"
+    return out
 
 
 def finish_real(ctx, case, p, outs):
@@ -665,6 +714,11 @@ def finish_real(ctx, case, p, outs):
     ctx.count(("real", case["seed"], case["n"]), nontrivial=p["n"] >= 3, corr=True)
     ctx.tally("nodes", f"real-{p['n']}")
     probs = list(p["extra"])
+    ev_model = outs[2].split(" | ")
+    for (_, which), m in zip(EVENT_KINDS, ev_model):
+        obs = p["events"][which]
+        if obs.split(" (")[0] != m:
+            ctx.corr_fail(case, f"events of one {which} time step: impl '{obs[:160]}' model '{m[:160]}'")
     for which, out in zip(("flat", "structural"), outs):
         model = out.split(" | ")
         if out == "bad-op" or len(model) != len(queries):
